@@ -6,8 +6,8 @@ JUDGED = {"vars", "scan_count", "match_count", "final_vars", "final_match_count"
 
 
 def main(tier):
-    n = 600 if tier == "quick" else 12000
-    return runfam.run(PID, tier, groups=("core", "stateful"), judged=JUDGED, ncases=n, seed_salt=7919)
+    n = 2000 if tier == "quick" else 20000
+    return runfam.run(PID, tier, groups=("core", "stateful", "print"), judged=JUDGED, ncases=n, seed_salt=7919)
 
 
 def replay(path):
